@@ -60,6 +60,10 @@ RESIZE = {"blobResize"}
 CLOSE = {"blobClose"}
 FREE = {"memFree", "free"}
 ZERO = {"memSetZero"}
+# committed: routines whose call is an authentication / integrity verification (event `vfy`)
+VERIFY = {"beltKWPUnwrap", "beltDWPUnwrap", "beltCHEUnwrap", "beltMACStepV", "beltMACStepV2", "beltDWPStepV",
+          "beltCHEStepV", "beltHMACStepV", "beltHMACStepV2", "bignKeyUnwrap", "bignVerify", "bign96Verify",
+          "bignIdVerify", "btokCVCUnwrap", "btokCVCVal2"}
 NULL_OK = {"blobClose", "blobResize", "blobSize", "blobIsValid", "blobWipe", "memIsNullOrValid",
            "memFree", "free", "blobCopy", "blobEq", "blobCmp"}
 INT_TYPES = {"size_t", "u32", "u16", "u64", "octet", "int", "unsigned int", "bool_t", "word", "u8",
@@ -224,6 +228,7 @@ class Fn:
         self.code = self.codes[0] if self.codes else None
         # derived pointers (flow-insensitive closure)
         roots = set(self.blobs) | set(self.outs)
+        pnames = {p for p, _ in self.params}
         changed = True
         self.derived = {r: {r} for r in roots}
         assigns = []
@@ -239,6 +244,8 @@ class Fn:
                     continue           # result of a call is a new value, not a derived pointer
                 if not self.is_ptr_expr(rhs):
                     continue
+                if tgt in pnames:
+                    continue           # a parameter re-pointed into a blob may still be the caller's pointer
                 src = set()
                 for m in self.mentions(rhs):
                     src |= self.derived.get(m, set())
@@ -453,6 +460,8 @@ class Fn:
         for v in uses:
             out.append([("use", v)])
         out.append([("call", self.call_id(cn))])
+        if cn in VERIFY:
+            out.append([("vfy",)])
         if cn in ZERO or (cn == "memSet" and len(args) == 3 and int_const(args[1]) == 0):
             for d in self.roots_of(args[0], "out"):
                 out.append([("zero", d)])
@@ -718,6 +727,8 @@ def lean_ev(ev):
     t = ev[0]
     if t == "code":
         return ".code .%s" % ev[1]
+    if t == "vfy":
+        return ".vfy"
     return ".%s %d" % (t, ev[1])
 
 
